@@ -3,7 +3,7 @@ CONSTANTS NLeaf = 3  NBlk = 1  NAsm = 1  MaxLevel = 3  LMax = 20000  VMax = 100
 CONSTANTS Parent <- TBlkParent  Area <- TBlkArea  Height <- TBlkHeight  Sym <- TBlkSym  W <- Wt  N0 <- TBlkN0  H0 <- TBlkH0
 CONSTANTS Targets <- TBlkTargetsAll  Vals <- ValsT  Facs <- FacsT  Masses <- MassesT  Maps <- MapsT  FracMaps <- FracMapsT
 CONSTANTS LeafVolCut <- LeafVolCutEnv  ScaleRaises <- ScaleRaisesEnv
-INIT Init
+INIT InitB
 NEXT NextB
 CONSTRAINT Bound
 VIEW View
